@@ -1,6 +1,7 @@
 package phase0
 
 import (
+	"encoding/json"
 	"github.com/protolambda/ztyp/codec"
 	"github.com/protolambda/ztyp/tree"
 	. "github.com/protolambda/ztyp/view"
@@ -110,6 +111,13 @@ func AsHistoricalBatch(v View, err error) (*HistoricalBatchView, error) {
 
 // roots of HistoricalBatch
 type HistoricalRoots []common.Root
+
+func (li HistoricalRoots) MarshalJSON() ([]byte, error) {
+	if li == nil {
+		return []byte("[]"), nil // encode as empty list, not null
+	}
+	return json.Marshal([]common.Root(li))
+}
 
 func (a *HistoricalRoots) Deserialize(spec *common.Spec, dr *codec.DecodingReader) error {
 	return tree.ReadRootsLimited(dr, (*[]common.Root)(a), uint64(spec.HISTORICAL_ROOTS_LIMIT))
